@@ -235,6 +235,8 @@ def run_lfht(ctx, comp, scenarios, nseeds, nsim, both_modes=True, mc_timeout=300
                 hist_validate(ctx, comp, s, tso, runs, wd, "hv_%s_%d" % (s["name"], tso))
                 if nsim and s is sc and not histonly:
                     conc.spec_to_code(ctx, comp, exe, s, tso, nsim, wd)
+            if sc.get("targets") and len(ctx.violations) < conc.MAXV:
+                directed(ctx, comp, exe, sc, wd, 4 if nseeds <= 60 else 40)
             log("  [conf] %s: traces validated so far %d, events %d, replays %d, violations %d" % (sc["name"], ctx.traces, ctx.events, ctx.replays, len(ctx.violations)))
     finally:
         if len(ctx.violations) >= conc.MAXV:
@@ -254,6 +256,64 @@ def run_lfht(ctx, comp, scenarios, nseeds, nsim, both_modes=True, mc_timeout=300
                                             "the quick scenarios of C05; the labels listed here belong to operations this property does not quantify over")
     else:
         ctx.extra.pop("_labels", None); ctx.extra.pop("_taken", None)
+
+
+def witness_schedule(tlc_out):
+    """TLC error trace (Tracing = TRUE) -> VSCHED schedule: one entry per state whose acc.k grew (T:<thread>, F:<thread> for a flush)"""
+    sched = []; k0 = 0
+    for m in re.finditer(r"^State \d+: .*?\n(.*?)(?=^State \d+:|\Z)", tlc_out, re.S | re.M):
+        a = re.search(r"/\\ acc = (\[.*?\])\s*(?=\n/\\ |\n\n|\Z)", m.group(1), re.S)
+        if not a:
+            continue
+        blk = a.group(1)
+        k = re.search(r"\bk \|-> (\d+)", blk); t = re.search(r"\bt \|-> \"([^\"]+)\"", blk); op = re.search(r"\bop \|-> \"([^\"]+)\"", blk)
+        if k and int(k.group(1)) > k0:
+            k0 = int(k.group(1))
+            sched.append(("F:" if op and op.group(1) == "flush" else "T:") + t.group(1))
+    return sched
+
+
+def directed(ctx, comp, exe, sc, wd, nseeds):
+    """Directed schedules (DESIGN 8): for every target of the scenario ({"name", "pred"}: a state predicate over the specification's variables with
+    `zt` ranging over the threads) TLC's shortest behaviour reaching it is forced onto the real code as a schedule prefix (software-TSO, flushes
+    included) and completed by the seeded scheduler; oracles run, and the executions are validated like any other."""
+    c = conc.consts_for(comp, sc, True, True)
+    base = gen_mc(sc, "dirbase%s" % comp.get("variant", ""), c, cfg_lines=[])
+    pf = conc.program_file(comp, sc, os.path.join(wd, "prog_%s.txt" % sc["name"]))
+    for tg in sc["targets"]:
+        mod = "DIR_%s_%s" % (sc["name"], tg["name"])
+        with open(os.path.join(GEN, mod + ".tla"), "w") as f:
+            f.write("---- MODULE %s ----\nEXTENDS %s\nDirTarget == ~(\\E zt \\in Threads : %s)\n====\n" % (mod, base, tg["pred"]))
+        with open(os.path.join(GEN, mod + ".cfg"), "w") as f:
+            f.write("SPECIFICATION Spec\n" + open(os.path.join(GEN, base + ".cfg")).read() + "INVARIANT DirTarget\n" +
+                    "".join("CONSTRAINT %s\n" % x for x in comp.get("constraints", [])) + "CHECK_DEADLOCK FALSE\n")
+        r = run_tlc(mod, timeout=900, heap="4g")
+        ctx.states += r.distinct; ctx.transitions += r.states
+        if r.violation != "invariant DirTarget":
+            raise RuntimeError("directed target %s/%s is not reachable in the specification (%s): predicate wrong or scenario too small" % (sc["name"], tg["name"], r.violation or r.error or "no violation"))
+        sched = witness_schedule(r.out)
+        runs = []; fails = []; reached = 0
+        for j in range(nseeds):
+            seed = ctx.seed * 1009 + j
+            sp = os.path.join(wd, "dir_%s_%d.sched" % (tg["name"], j)); tp = os.path.join(wd, "dir_%s_%d.ndjson" % (tg["name"], j))
+            open(sp, "w").write("#auto-benign\n" + "\n".join(sched + ["X:seeded"]) + "\n")      # X:seeded: unknown agent = hand over to the seeded scheduler
+            env = dict(comp.get("env", {})); env.update({"VRT_SCHED": sp, "VRT_MODE": "uniform" if j % 2 else "pct", "VRT_DEPTH": 1 + j % 3, "VRT_LEN": comp.get("pct_len", 120)})
+            rc, so, se = run_driver(exe, [seed, 1, tp, pf], env=env, timeout=comp.get("run_timeout", 30))
+            ev = read_trace(tp) if os.path.exists(tp) else []
+            div = [e for e in ev if e.get("op") == "replay_diverged"]
+            reached += 1 if (div and div[0].get("agent") == "X:seeded") else 0
+            envm = {k: v for k, v in env.items() if k != "VRT_SCHED"}
+            if rc != 0:
+                fails.append({"seed": seed, "tso": 1, "rc": rc, "stderr": se[-500:], "trace": tp, "env": envm, "scenario": sc["name"], "schedule": sched + ["X:seeded"]})
+            else:
+                runs.append((seed, ev)); os.unlink(tp)
+            os.unlink(sp)
+        conc.report_failures(ctx, comp, fails)
+        before = ctx.traces
+        conc.validate(ctx, comp, sc, 1, runs, wd, "tvd_%s_%s" % (sc["name"], tg["name"]))
+        ctx.replays += ctx.traces - before
+        ctx.extra.setdefault("directed_targets", {})["%s/%s" % (sc["name"], tg["name"])] = {"tlc_depth": r.depth, "schedule_steps": len(sched), "executions": nseeds, "prefix_followed_to_its_end": reached}
+        log("  [dir] %s/%s: TLC path of %d steps forced onto the real code, %d/%d executions followed it to its end" % (sc["name"], tg["name"], len(sched), reached, nseeds))
 
 
 def replay(ctx, comp, path):
